@@ -80,7 +80,8 @@ def run(ctx):
             ctx.undecided("R2", "lang_query_item_filter(%r): %s" % (k, e))
             continue
         ctx.ob("R2", "lang_query_item_filter/%s" % k, got == keep, "lang_query_item_filter(%r) is %s, expected %s" % (k, got, keep), fp.site(lref.node), witness="?%s=fr" % k)
-    for x in P.subterms(t):
+    from .c03 import outer_norm_calls
+    for x in outer_norm_calls(t):
         if is_norm_call(x):
             kw = dict(x[3])
             ctx.ob("R2", "fingerprint_url/passes-lang-filter", kw.get("query_item_filter") == ("funcref", "ural.fingerprint_url.lang_query_item_filter"),
@@ -104,7 +105,10 @@ def run(ctx):
         ctx.ob("R2", "should_strip_query_item/filters/%s" % what, got == exp,
                "should_strip_query_item ignores a filter: [%s] gives %s, expected %s (a per-domain filter must not shadow the custom filter: hl is kept on youtube.com)" % (what, got, exp),
                nm.site(sref.node), witness="https://www.youtube.com/watch?v=x&hl=fr")
-    for item in (("HL", "fr"), ("Gl", "US"), ("hl", "fr")):
+    from .c03 import outer_norm_calls as _onc
+    _factored = all(not F.unguarded_paths((nc[2][0] if nc[2] else dict(nc[3]).get("url")) or ("const", None), F.is_param("url"), is_norm_call) for nc in _onc(t)) and bool(_onc(t))
+    # when fingerprint_url factors through normalize_url the second pass only sees lower-cased, unescaped keys
+    for item in ((("hl", "fr"),) if _factored else (("HL", "fr"), ("Gl", "US"), ("hl", "fr"))):
         try:
             got = bool(run_function(repo, sref, [item], {"query_item_filter": lref}))
         except Unknown as e:
@@ -158,7 +162,8 @@ def run(ctx):
     # platform_aware=True routes through is_facebook_url on the string: its host language must not depend on the port
     import json as _json2
     from .c18 import site_languages, SPEC as _SPEC
-    site_languages(ctx, "R6", "facebook", _json2.load(open(_SPEC))["facebook"])
+    # (normalize_url hands it the canonicalized, hence lower-cased, url)
+    site_languages(ctx, "R6", "facebook", _json2.load(open(_SPEC))["facebook"], lower_only=True)
     # a language label is stripped after normalize_url ran: the irrelevant labels must be matched behind it too
     from .c04 import subdomain_labels, SPEC as _SPEC4
     ctx.rule("R7", "irrelevant sub-domain labels are matched wherever they stand in the host (fr.www.lemonde.fr loses both labels): pinned label list x {leading, inner} positions, regex-language inclusion")
